@@ -63,6 +63,13 @@ CHECKS.update({
         note="Trusted base: the reference predicate in the harness (about 20 lines, from the statement); server names are generated as a TLS stack reports them (DNS names, never bracketed)."),
 })
 
+CHECKS.update({
+    "C08": dict(engine="sniff", ref="§5 C08, §4 E3",
+        technique="grammar-based and enumerated fragmentation testing: metamorphic (fragmented vs one chunk) and differential (auto-detecting connection vs plain hyper http1/http2 connection) oracles plus the preface classification rule",
+        text="Byte streams from a grammar (HTTP/1 requests incl. ones sharing a prefix with the preface, h2 preface + frames, strict preface prefixes followed by EOF/diverging bytes, raw bytes) are delivered to server::conn::auto::Builder through a scripted reader with exact chunk boundaries and Pending results (all compositions of the first 10/14 bytes for golden streams, every single cut position, one-byte reads, random plans). The server's answer must be HTTP/2 exactly when the stream starts with the preface, equal the unfragmented answer and equal a single-protocol hyper connection's answer.",
+        note="Trusted base: hyper's http1/http2 server connections as reference; exact-equality oracles are applied only where that reference itself is invariant under the same read plan and under one-byte reads (hyper's handling of malformed input may depend on read boundaries) - otherwise only the classification is asserted; HTTP/2 answers compared by DATA payload/END_STREAM/RST/GOAWAY, HTTP/1 byte-exact minus Date."),
+})
+
 NOT_YET = {
     "C01": "check not built yet (engine E2 netsim in progress)",
     "C07": "check not built yet (engine E2 netsim in progress)",
